@@ -75,6 +75,26 @@ Theorem c16_load_is_last_save : forall dec n k hs,
 Proof. exact private_load_is_last_save. Qed.
 Print Assumptions c16_load_is_last_save.
 
+(* CONCURRENT SAVERS.  bbolt serialises Update transactions and a Save returns after
+   its commit, so an execution is a linearisation: an interleaving [l] of the threads'
+   operation lists keeping each thread's own order (assumption, bbolt's).  For any
+   number of threads and every interleaving, the value of a key after quiescence is
+   the last save of the linearisation, which is the LAST save of that key by SOME
+   thread -- never one its own writer overwrote -- and nothing iff no thread saved it. *)
+Theorem c16_concurrent_savers_quiescent_load : forall dec n k threads l,
+  interleaving threads l ->
+  match last (houts dec [n] (l ++ [HOp 0 (OLoadRaw k)])) RCrash with
+  | RBytes v => exists t, In t threads /\ last_saved k t None = Some v
+  | RNone => forall t, In t threads -> last_saved k t None = None
+  | _ => False
+  end.
+Proof. exact concurrent_savers_quiescent_load. Qed.
+Print Assumptions c16_concurrent_savers_quiescent_load.
+
+Example c16_interleaving_example : interleaving [[1; 2]; [3]] [1; 3; 2].
+Proof. exact interleaving_example. Qed.
+Print Assumptions c16_interleaving_example.
+
 (* the database version: the one saved last, as an int32; 0 if none *)
 Theorem c16_version_is_last_saved : forall dec n hs,
   last (houts dec [n] (hs ++ [HOp 0 OLoadVer])) RCrash =
